@@ -24,3 +24,4 @@ import TssVerif.Props.C19
 import TssVerif.Props.C20
 import TssVerif.Props.C04b
 import TssVerif.Props.C05b
+import TssVerif.Props.C09b
